@@ -9,3 +9,4 @@ import Aiorpcx.C19.Props
 import Aiorpcx.C07.Props
 import Aiorpcx.C01.Props
 import Aiorpcx.C02.Props
+import Aiorpcx.C18.Props
